@@ -44,6 +44,41 @@ type miscGen struct {
 	slot    uint64
 	owned   []uint16
 	foreign uint16
+	// personBias (0..2): how often a command belongs to the life cycle of one of two
+	// person channels (admission, deletion, re-admission, completion), each of which
+	// lives in one fixed hash slot like a real channel does
+	personBias int
+}
+
+// personLifecycle draws one step of a person channel's life.
+func (g *miscGen) personLifecycle() miscCmd {
+	tp := g.tp
+	pcs := simPersonChannels()
+	k := tp.Intn(len(pcs))
+	pc, hs := pcs[k], g.owned[k%len(g.owned)]
+	switch tp.Weighted([]int{3, 3, 1, 1, 1}) {
+	case 0:
+		it := fsm.PersonDirectoryAdmissionBatchItem{HashSlot: hs,
+			Task:        metadb.PersonDirectoryTask{ChannelID: pc, ChannelType: 1, CommittedTail: uint64(tp.Intn(5)), CreatedAt: int64(tp.Intn(5))},
+			RuntimeMeta: g.runtimeMeta(pc, 1)}
+		if data, err := fsm.EncodeAdmitPersonDirectoryTaskBatchCommandChecked([]fsm.PersonDirectoryAdmissionBatchItem{it}); err == nil {
+			return miscCmd{hs: hs, data: data, desc: "admit-person-directory " + pc}
+		}
+	case 1:
+		return miscCmd{hs: hs, data: fsm.EncodeDeleteChannelCommand(pc, 1), desc: "delete-channel " + pc}
+	case 2:
+		it := fsm.PersonDirectoryCompletionBatchItem{HashSlot: hs, ChannelID: pc, ChannelType: 1, Generation: uint64(1 + tp.Intn(3))}
+		if data, err := fsm.EncodeCompletePersonDirectoryTaskBatchCommandChecked([]fsm.PersonDirectoryCompletionBatchItem{it}); err == nil {
+			return miscCmd{hs: hs, data: data, desc: fmt.Sprintf("complete-person-directory %s gen=%d", pc, it.Generation)}
+		}
+	case 3:
+		m := g.runtimeMeta(pc, 1)
+		return miscCmd{hs: hs, data: fsm.EncodeUpsertChannelRuntimeMetaCommand(m), desc: fmt.Sprintf("upsert-runtime-meta %s %s", pc, rtString(&m))}
+	default:
+		c := metadb.Channel{ChannelID: pc, ChannelType: 1, Ban: int64(tp.Intn(2))}
+		return miscCmd{hs: hs, data: fsm.EncodeCreateChannelCommand(c), desc: "create-channel " + pc}
+	}
+	return miscCmd{hs: hs, data: fsm.EncodeNoopCommand(), desc: "noop"}
 }
 
 func (g *miscGen) hs() uint16 { return pickU16(g.tp, g.owned) }
@@ -101,6 +136,9 @@ func (g *miscGen) runtimeMeta(id string, typ int64) rtMeta {
 // ordinary draws one ordinary (non-maintenance) command.
 func (g *miscGen) ordinary() miscCmd {
 	tp := g.tp
+	if g.personBias > 0 && tp.Chance(g.personBias, 5) {
+		return g.personLifecycle()
+	}
 	hs := g.hs()
 	foreignItem := func() (uint16, bool) {
 		if tp.Chance(1, 10) {
